@@ -259,19 +259,20 @@ def g9(ctx: Ctx):
         for n in ast.walk(m.tree):
             if isinstance(n, ast.Subscript) and isinstance(n.slice, ast.Slice) and isinstance(n.slice.lower, ast.Constant) and isinstance(n.slice.lower.value, int) and n.slice.lower.value in (3, 4, 5):
                 src = unparse(n.value)
-                if "name()" in src or src in ("var",):
+                if src.endswith("name()") or isinstance(n.value, ast.Name):
                     n_strip += 1
                     ok = n.slice.lower.value == len("arr_") and n.slice.upper is None
                     why = f"`{unparse(n)}` strips {n.slice.lower.value} characters, the array prefix `arr_` has 4"
                     if n.slice.upper is not None:
                         why = f"`{unparse(n)}` also cuts the name after the prefix: the `$` of a two-character string array name is lost, so the string array is declared under the numeric array's identifier"
-                    ctx.ob(f"strip-prefix:{rel.split('/')[-1]}:{src}", ok, "" if ok else why, file=rel, line=n.lineno, props=["C09", "C10"])
+                    skey = f"{rel.split('/')[-1]}:{_func_at(m, n.lineno)}#{n_strip}"
+                    ctx.ob(f"strip-prefix:{skey}", ok, "" if ok else why, file=rel, line=n.lineno, props=["C09", "C10"])
                     # a stripped (source-level) name may only be used to rebuild the variable of an array reference;
                     # everywhere else names are compared in their emitted form
                     par = parents.get(id(n))
                     okc = isinstance(par, ast.Call) and call_name(par) == "BasicVar" and par.args and par.args[0] is n
                     ctx.ob(
-                        f"strip-prefix:{rel.split('/')[-1]}:{src}:use",
+                        f"strip-prefix:{skey}:use",
                         bool(okc),
                         "" if okc else f"`{unparse(n)}` (array name without its `arr_` prefix) is used outside a `BasicVar(...)` reconstruction: the bare name is that of the scalar of the same name, so array and scalar are confused in whatever set or comparison it enters",
                         file=rel,
@@ -283,7 +284,9 @@ def g9(ctx: Ctx):
     sv = py.cls("SetDimStringStorageVisitor").methods.get("__init__")
     ctx.need(sv is not None, "SetDimStringStorageVisitor.__init__", "not found")
     src = unparse(sv)
-    okm = re.search(r"var if var\.endswith\('\$'\) else f'arr_\{var\[:-3\]\}\$'", src) is not None
+    from .pyast import ast_contains
+
+    okm = ast_contains(sv, "$v if $v.endswith('$') else f'arr_{$v[:-3]}$'")
     ctx.ob("config-keys->emitted-names", okm, "" if okm else "configured names are no longer rewritten as `X$` -> `X$`, `X$()` -> `arr_X$`", file="coco/b09/visitors.py", line=sv.lineno, props=["C09", "C10"])
 
 
@@ -348,6 +351,15 @@ def e8(ctx: Ctx):
         fixed = pat.split("@")[0]
         ok = len(re.sub(r"\\", "", fixed)) >= 3 or fixed.startswith("arr")
         ctx.ob(f"generated-pattern:{pat}", ok, "" if ok else f"identifier pattern `{pat}` has no fixed prefix that separates it from user identifiers", file=rel, line=ln, props=["C09"])
+
+
+def _func_at(m, line: int) -> str:
+    best = "<module>"
+    for ci in m.classes.values():
+        for fn in list(ci.methods.values()) + list(ci.properties.values()):
+            if fn.lineno <= line <= getattr(fn, "end_lineno", fn.lineno):
+                best = f"{ci.name}.{fn.name}"
+    return best
 
 
 def _fold(L: Lang) -> Lang:
